@@ -11,8 +11,6 @@ package c03
 
 import (
 	"fmt"
-	"os"
-	"runtime/pprof"
 	"sort"
 	"strings"
 
@@ -64,12 +62,6 @@ type batch struct {
 }
 
 func (Prop) RunBatch(c *vp.Child) {
-	if pf := os.Getenv("VERIF_C03_PROF"); pf != "" {
-		if f, err := os.Create(pf); err == nil {
-			pprof.StartCPUProfile(f)
-			defer pprof.StopCPUProfile()
-		}
-	}
 	b := &batch{c: c, e: newEnv(c), reported: map[string]int{}}
 	defer b.e.s.Close()
 	switch c.Stage {
